@@ -46,6 +46,7 @@ def lines_parsed_independently(ctx, rule):
 
     def parse_line_summary(I, func, self_val, args, kwargs, node, fr):
         a = args[0] if args else kwargs.get("line")
+        I.run.event("parse_line_summary")
         return Unknown(I.run.new_tag("parsed"), {"expr": f"parse_line({I.expr_of(a)})", "not_none": True})
     I = make_interp(ctx.p, {"parse_line": parse_line_summary})
     pfl = ctx.p.find_func("parse_file_lines")
@@ -147,9 +148,14 @@ def forwarding_rule(ctx, rule):
         cons = Unknown("CONSUMER", {"truthy": True, "not_none": True})
         return I.call_func(opm.find_method("parse"), [Str((Hole("FILE", "text", True),)), cons], {}, o, None, None)
     n = 0
+    undecided: list = []
     for p in I2.explore(thunk):
         n += 1
         if p.kind != "return":
+            if not any(e.kind == "parse_line_summary" for e in p.events):
+                # the listing's lines do not go through parse_line: the line parser itself ran on an opaque line (undecided)
+                undecided.append(f"{rule}: ObjdumpParserManual.parse does not go through parse_line; its raise on an opaque line is not judged")
+                continue
             ctx.fail(rule, "ObjdumpParserManual.parse", f"raises {p.exc!r}"[:80], "parse raises")
             continue
         calls = [e for e in p.events if e.kind == "call_unknown" and e.target.endswith("consume_instruction")]
@@ -165,9 +171,31 @@ def forwarding_rule(ctx, rule):
         # \r \v \f \x1c-\x1e \x85 \u2028 \u2029, which may sit inside a <symbol> or a # comment (seeded change C16-13)
         wants = [[]] if (not_instr or empty) else [["parse_line(<<FILE>.split('\\n')[*]>)"]]
         ok = args in wants and not cfg and not other
+        regrouped = any("extended_elem" in a_ for a_ in args)
+        # paths that sort the parsed lines by kind (Label, Section, plain text ...) before forwarding, or that do not go through
+        # parse_line at all: a regrouping this analysis cannot follow element by element
+        kind_tests = [k for k, _ in other if isinstance(k, tuple) and k[0] == "isinstance" and k[-1] != "Instruction"]
+        unfollowed = regrouped or (other and len(kind_tests) == len(other)) or \
+            (other and not any("parse_line(" in a_ for a_ in args) and not any("parsed#" in str(k) for k, _ in other))
+        if not ok and not cfg and unfollowed:
+            # undecided: the check then fails closed unless another rule has something to report
+            undecided.append(f"{rule}: the forwarded elements come out of a regrouping that is not followed element-wise "
+                             f"(consumed={args}, conditions={[str(k)[:40] for k, _ in other][:3]})")
+            continue
         ctx.check(ok, rule, "ObjdumpParserManual.parse",
                   f"consumed={args} expected={wants[0]} config-reads={[c.key for c in cfg]} other-conditions={[str(k)[:40] for k, _ in other]}"[:240],
                   "every parsed line that is an Instruction is forwarded once, in line order; nothing else decides")
+    # the same obligation decided exactly on whole-listing templates (sections and labels with repeated names, comments,
+    # elisions, byte continuations): what reaches the consumer is the instruction lines' records, once each, in file order
+    from .. import shapes
+    before = len(ctx.findings)
+    n += shapes.listing_order_rule(ctx, make_interp(ctx.p), rule)
+    if undecided:
+        if len(ctx.findings) == before:
+            # a parser that regroups the parsed lines before forwarding them: the element-wise rule does not follow it; the
+            # claim for such a structure rests on the listing templates
+            ctx.notes.append(f"{undecided[0]} - {len(undecided)} path(s); decided on the listing templates only")
+        # (with a failing listing template the finding is reported; nothing is left undecided)
     return n
 
 
